@@ -12,6 +12,16 @@
      - a rejected insertion leaves the triangulation unchanged (C03_reject_unchanged)
      - every created simplex contains the new vertex      (C03_every_new_simplex_has_pt)
      - the vertex list grows by exactly the accepted point (C03_vertices_appended_once)
+     - simplices stay sorted duplicate-free tuples          (C03_simplices_sorted_nodup)
+     - a facet that does not contain the vertex being inserted is in at most two
+       simplices afterwards if it was before; so when a triangulation with the hull
+       property gets a facet into three or more simplices, that facet contains the
+       NEW vertex (C03_old_facets_stay_le2, C03_first_overlap_at_new_vertex): the
+       pseudo-manifold clause can only break at the cavity of the point just
+       inserted, for every outcome of every predicate.  C03_facets_need_geometry
+       shows that this is sharp: with adversarial predicate answers (a cavity that
+       is pinched at a vertex) a facet at the new vertex does get into four
+       simplices, so the rest of the clause is geometry.
    NOT proved (C03_tiling_partial): "every facet belongs to at most two
    simplices, the volumes add up to the hull volume up to the sliver tolerance,
    Delaunay in the metric for points in general position".  This is a geometric
@@ -26,7 +36,7 @@
        (forall v, exists s in T, v in s) /\
        |sum_{s in T} vol s - vol (conv (vertices T))| <= sliver_tolerance /\
        (general_position (vertices T) -> Delaunay metric T) /\ report exact /\ reject unchanged. *)
-From AV Require Import Base.Prelude Model.Tri Proofs.TriProofs.
+From AV Require Import Base.Prelude Base.NatSet Model.Tri Proofs.TriProofs Proofs.TriFacets.
 
 Section C03.
   Variable P : Type.   (* vertex coordinates: abstract, the bookkeeping never looks at them *)
@@ -77,6 +87,32 @@ Section C03.
     | _ => verts (fst (add_point d t p hint o)) = verts t
     end.
   Proof. exact (@vertices_appended_once P d). Qed.
+
+  (* ---- facet multiplicities (Proofs/TriFacets.v) ---- *)
+  (* [cf g ss] = number of occurrences of the face g among the facets of the
+     simplices ss: the quantity the code's hull property inspects *)
+  Theorem C03_old_facets_stay_le2 : forall (vs : list P) ss (h : list (op P)) p hint o,
+    wf_init vs ss -> (forall s, In s ss -> sorted s) ->
+    legal d (init vs ss) (h ++ [AddPoint p hint o]) = true ->
+    let t := reach d vs ss h in forall g,
+    ~ In (nverts t) g -> cf g (simplices t) <= 2 ->
+    cf g (simplices (fst (add_point d t p hint o))) <= 2.
+  Proof. exact (@old_facets_stay_le2 P d). Qed.
+
+  Theorem C03_first_overlap_at_new_vertex : forall (vs : list P) ss (h : list (op P)) p hint o,
+    wf_init vs ss -> (forall s, In s ss -> sorted s) ->
+    legal d (init vs ss) (h ++ [AddPoint p hint o]) = true ->
+    let t := reach d vs ss h in forall g,
+    broken_faces (all_faces (simplices t)) = false ->
+    2 < cf g (simplices (fst (add_point d t p hint o))) -> In (nverts t) g.
+  Proof. exact (@first_overlap_at_new_vertex P d). Qed.
+
+  Theorem C03_simplices_sorted_nodup : forall (vs : list P) ss (h : list (op P)) p hint o,
+    wf_init vs ss -> (forall s, In s ss -> sorted s) ->
+    legal d (init vs ss) (h ++ [AddPoint p hint o]) = true ->
+    let t' := fst (add_point d (reach d vs ss h) p hint o) in
+    NoDup (simplices t') /\ forall s, In s (simplices t') -> sorted s.
+  Proof. exact (@simplices_sorted_nodup P d). Qed.
 End C03.
 
 (* non-vacuity: a legal 2-D history with an interior insertion, an insertion
@@ -99,8 +135,36 @@ Proof.
   intros s v [<-|[]] Hv. cbn [In length] in *. lia.
 Qed.
 
+(* sharpness: predicate answers describing a cavity pinched at vertex 0 (a fan
+   0-1-2, 0-2-3, 0-3-4, 0-1-4 closed by the outer vertex 5; "in circumcircle" for
+   two opposite fan triangles and the outer ones) put the facet [0;6] at the new
+   vertex 6 into FOUR simplices, while every facet without 6 stays within two *)
+Definition C03_pinched_ss : list simplex :=
+  [[0;1;2];[0;2;3];[0;3;4];[0;1;4];[1;2;5];[2;3;5];[3;4;5];[1;4;5]].
+Definition C03_pinched_op : op nat :=
+  AddPoint 6 (Some [0;1;2]) (C03_ex_orc [] [0;1;2] [] [] [[0;1;2];[1;2;5];[2;3;5];[3;4;5];[0;3;4]]).
+
+Example C03_facets_need_geometry :
+  let t := init [0;1;2;3;4;5] C03_pinched_ss in
+  let t' := fst (step 2 t C03_pinched_op) in
+  wf_init [0;1;2;3;4;5] C03_pinched_ss /\ (forall s, In s C03_pinched_ss -> sorted s) /\
+  legal 2 t [C03_pinched_op] = true /\
+  broken_faces (all_faces (simplices t)) = false /\
+  cf [0;6] (simplices t') = 4 /\
+  forallb (fun g => nat_mem 6 g || (cf g (simplices t') <=? 2)) (all_faces (simplices t')) = true.
+Proof.
+  split; [|split; [|vm_compute; repeat split]].
+  - intros s v Hs Hv. cbn [length]. cbn [C03_pinched_ss In] in Hs.
+    repeat (destruct Hs as [<-|Hs]; [cbn [In] in Hv; lia|]). destruct Hs.
+  - intros s Hs. cbn [C03_pinched_ss In] in Hs.
+    repeat (destruct Hs as [<-|Hs]; [repeat constructor|]). destruct Hs.
+Qed.
+
 Print Assumptions C03_index_consistent.
 Print Assumptions C03_report_exact.
 Print Assumptions C03_reject_unchanged.
 Print Assumptions C03_every_new_simplex_has_pt.
 Print Assumptions C03_vertices_appended_once.
+Print Assumptions C03_old_facets_stay_le2.
+Print Assumptions C03_first_overlap_at_new_vertex.
+Print Assumptions C03_simplices_sorted_nodup.
